@@ -283,12 +283,16 @@ var cacheDocs = []string{
 	"\n\n" + `<mjml><mj-body><mj-section><mj-column><mj-text bogus-attr="1">Doc V</mj-text></mj-column></mj-section></mj-body></mjml>`,
 	// document A followed by trailing whitespace: differs from A only after the root element
 	`<mjml><mj-body><mj-section><mj-column><mj-text>Doc A</mj-text></mj-column></mj-section></mj-body></mjml>` + "\n  ",
+	// the same document with LF and with CRLF line ends, raw content spanning lines in head and body (raw content is copied
+	// byte for byte, so the two compile to different HTML): documents that differ anywhere never share an entry
+	"<mjml>\n<mj-head>\n<mj-raw>\n<meta name=\"a\"\n content=\"1\">\n</mj-raw>\n</mj-head>\n<mj-body>\n<mj-section>\n<mj-column>\n<mj-raw>\n<p>line one\nline two</p>\n</mj-raw>\n<mj-text>LE</mj-text>\n</mj-column>\n</mj-section>\n</mj-body>\n</mjml>\n",
+	"<mjml>\r\n<mj-head>\r\n<mj-raw>\r\n<meta name=\"a\"\r\n content=\"1\">\r\n</mj-raw>\r\n</mj-head>\r\n<mj-body>\r\n<mj-section>\r\n<mj-column>\r\n<mj-raw>\r\n<p>line one\r\nline two</p>\r\n</mj-raw>\r\n<mj-text>LE</mj-text>\r\n</mj-column>\r\n</mj-section>\r\n</mj-body>\r\n</mjml>\r\n",
 	// a document whose head the renderer READS while rendering (mj-class with the name not written last, mj-attributes
 	// defaults, an inline style rule): a cached tree that a render has modified shows up as a different second result
 	`<mjml><mj-head><mj-attributes><mj-class color="#ff0000" name="red" font-size="20px"/><mj-text padding="1px" bogus-default="x"/><mj-all font-family="Arial"/></mj-attributes><mj-style inline="inline">.k { color: blue; }</mj-style><mj-raw><meta name="raw-in-head" content="1"/></mj-raw></mj-head><mj-body><mj-section><mj-column><mj-text mj-class="red" css-class="k">Doc C</mj-text><mj-text color="#00ff00" align="center" bogus="1">Doc C2 <span class="k" style="margin:0">s</span></mj-text><mj-table><tr class="k" style="height:9px"><td style="padding:1px" class="k" align="left">cell</td></tr></mj-table><mj-button href="u"><b class="k" style="top:0">B</b></mj-button><mj-raw><i style="left:0" class="k">r</i></mj-raw></mj-column><mj-raw><p>raw between columns</p></mj-raw></mj-section></mj-body></mjml>`,
 }
 
-const cacheOkBits = "1101111"
+const cacheOkBits = "110111111"
 
 type predicted struct {
 	out                     string
@@ -324,7 +328,7 @@ func (h cacheHist) all() []string { return append(append([]string{}, h.prefix...
 // compareCache runs one history on the model and on the implementation.
 func compareCache(drv *DriverPool, h cacheHist, res *Result, prop string, checkC14 bool) {
 	ops := h.all()
-	hs := "0,1,2,3,4,5,6"
+	hs := "0,1,2,3,4,5,6,7,8"
 	if h.hashes != nil {
 		var p []string
 		for _, x := range h.hashes {
@@ -366,7 +370,7 @@ func compareCache(drv *DriverPool, h cacheHist, res *Result, prop string, checkC
 	res.Programs++
 	res.DisagreementsChecked += len(ops)
 	res.mu.Unlock()
-	in := map[string]interface{}{"ops": ops, "hashes": h.hashes, "docs": "cacheDocs (A, B, unparsable, invalid-attribute, same behind two blank lines, A + trailing whitespace, head-reading document)"}
+	in := map[string]interface{}{"ops": ops, "hashes": h.hashes, "docs": "cacheDocs (A, B, unparsable, invalid-attribute, same behind two blank lines, A + trailing whitespace, raw content over several lines with LF / with CRLF line ends, head-reading document)"}
 	if crash != "" || len(obs) != len(ops) {
 		// a crash is an implementation failure: no configuration or history may take the process down (C14/C13)
 		res.Violate(Violation{Sig: "process-crash|" + canonHist(h), Kind: "history", What: "cache history crashed or hung the process: " + crash, Input: in})
@@ -463,7 +467,7 @@ func canonHist(h cacheHist) string {
 func cacheHistories(tier string, seed int64, withConfigs bool) []cacheHist {
 	var hs []cacheHist
 	half, full := fmt.Sprintf("a%d", 150*int64(1e9)), fmt.Sprintf("a%d", 300*int64(1e9))
-	alpha := []string{"rc0", "rc1", "rc2", "rc3", "rc4", "rc5", "ru0", half, full, "s"} // rc6 (the head-reading document) joins the random and targeted histories only
+	alpha := []string{"rc0", "rc1", "rc2", "rc3", "rc4", "rc5", "ru0", half, full, "s"} // rc8 (the head-reading document) and rc6 / rc7 (the LF / CRLF pair) join the random and targeted histories only
 	maxLen := 4
 	if tier == "thorough" {
 		maxLen = 5
@@ -509,7 +513,7 @@ func cacheHistories(tier string, seed int64, withConfigs bool) []cacheHist {
 	hs = append(hs, lifecycleHistories()...)
 	// options belong to the compilation, not to the cached tree: debug tags on / off over one entry, in every order, across
 	// expiry and stop / restart
-	for _, d := range []string{"0", "3", "6"} {
+	for _, d := range []string{"0", "3", "8"} {
 		c, cd, u, ud := "rc"+d, "rcd"+d, "ru"+d, "rud"+d
 		for _, ops := range [][]string{
 			{cd, c, cd, c}, {c, cd, c}, {cd, u, c, ud, cd}, {cd, full, c, cd}, {c, full, cd, c}, {cd, "s", c, cd, "s", c}, {ud, cd, c}, {cd, cd, c, c, ud, u},
@@ -533,12 +537,23 @@ func cacheHistories(tier string, seed int64, withConfigs bool) []cacheHist {
 		if fast {
 			h.prefix = fastPrefix
 		}
+		lateT := -1 // a third of the slow histories make their one effective setter call somewhere in the middle
+		if !fast && r.Bool(1, 3) {
+			lateT = r.Intn(L)
+		}
+		lateTTL := []int64{90 * int64(1e9), 12 * 60 * int64(1e9), nsHour}[r.Intn(3)]
 		for j := 0; j < L; j++ {
 			var o string
+			if j == lateT {
+				h.ops = append(h.ops, fmt.Sprintf("T%d", lateTTL))
+			}
+			if lateT >= 0 && j > lateT && r.Bool(1, 4) {
+				h.ops = append(h.ops, fmt.Sprintf("a%d", []int64{lateTTL / 2, lateTTL - 20*int64(1e9), lateTTL + 20*int64(1e9), 2 * lateTTL}[r.Intn(4)]))
+			}
 			if fast {
 				o = r.Pick(append(falpha, "rc0", "rc1", "rc3"))
 			} else {
-				o = r.Pick(append(alpha, "rc0", "rc1", "rc0", "rc6", "rc6", "ru6", "rcd0", "rcd6", "rud0", "rcd1"))
+				o = r.Pick(append(alpha, "rc0", "rc1", "rc0", "rc8", "rc8", "ru8", "rcd0", "rcd8", "rud0", "rcd1", "rc6", "rc7", "rc7", "ru6"))
 			}
 			h.ops = append(h.ops, o)
 			if fast && o != "s" {
@@ -594,6 +609,23 @@ func lifecycleHistories() []cacheHist {
 	} {
 		hs = append(hs, cacheHist{ops: ops})
 	}
+	// the first setter call made late — after cached compilations, while a cleaner is running: entries stored from then on
+	// live for the configured time (shorter and longer than the default), entries stored before keep their expiry
+	min1, min2, min4, min6, min30, min45, min90 := "a60000000000", "a120000000000", "a240000000000", "a360000000000", "a1800000000000", "a2700000000000", "a5400000000000"
+	Tmin, T2h := fmt.Sprintf("T%d", 90*int64(1e9)), fmt.Sprintf("T%d", 2*nsHour)
+	for _, ops := range [][]string{
+		{"rc0", T, "rc1", min30, "rc1", "rc0", min45, "rc1", "rc0"},
+		{"rc0", Tmin, "rc1", min2, "rc1", "rc0"},
+		{"rc0", Tmin, "rc1", min1, "rc1", "rc0", min1, "rc1", "rc0"},
+		{"rc0", "rc1", T2h, "rc3", "rc4", min6, "rc0", "rc1", "rc3", "rc4", min90, "rc0", "rc3", min30, "rc0", "rc3", "rc4"},
+		{"ru0", "rc0", Tmin, min4, "rc0", "rc1", min2, "rc0", "rc1"},
+		{"rc0", "s", Tmin, "rc1", min2, "rc1", "rc0"},
+		{"rc0", "s", "rc1", T, "rc0", "rc3", min6, "rc0", "rc1", "rc3", "s", "rc4", min30, "rc4", "rc3"},
+		{"rc0", T, "T1", "rc1", min30, "rc1", "rc0"},
+		{"rc0", "rc0", Tmin, "rc0", min2, "rc0", min1, "rc0", min1, "rc0"},
+	} {
+		hs = append(hs, cacheHist{ops: ops})
+	}
 	return hs
 }
 
@@ -637,13 +669,14 @@ func runCacheProp(prop string) runFn {
 		} else {
 			hs = cacheHistories(tier, seed, prop == "C14")
 			// the head-reading document: cached again and again, next to uncached compilations of itself and of others
-			for _, ops := range [][]string{{"rc6", "rc6"}, {"rc6", "rc6", "rc6"}, {"ru6", "rc6", "rc6", "ru6"}, {"rc6", "rc0", "rc6", "rc3", "rc6"}, {"rc6", "s", "rc6", "rc6"}} {
+			for _, ops := range [][]string{{"rc8", "rc8"}, {"rc8", "rc8", "rc8"}, {"ru8", "rc8", "rc8", "ru8"}, {"rc8", "rc0", "rc8", "rc3", "rc8"}, {"rc8", "s", "rc8", "rc8"},
+				{"rc6", "rc7", "rc6", "rc7"}, {"rc7", "rc6"}, {"rc6", "ru7", "rc7", "rc6"}, {"rc7", "s", "rc6", "rc7"}} {
 				hs = append(hs, cacheHist{ops: ops})
 			}
 			// forced hash collisions: the recorded finding C13-F1, and near misses that must not collide
 			if prop == "C13" {
-				hs = append(hs, cacheHist{ops: []string{"rc0", "rc1"}, hashes: []uint64{7, 7, 8, 9, 10, 11, 12}})
-				hs = append(hs, cacheHist{ops: []string{"rc0", "rc1", "rc0"}, hashes: []uint64{7, 8, 9, 10, 11, 12, 13}})
+				hs = append(hs, cacheHist{ops: []string{"rc0", "rc1"}, hashes: []uint64{7, 7, 8, 9, 10, 11, 12, 13, 14}})
+				hs = append(hs, cacheHist{ops: []string{"rc0", "rc1", "rc0"}, hashes: []uint64{7, 8, 9, 10, 11, 12, 13, 14, 15}})
 			}
 		}
 		res.Exhaustive = false
